@@ -12,6 +12,7 @@ import (
 
 	"github.com/istio-ecosystem/authservice/internal/oidc"
 	"github.com/istio-ecosystem/authservice/zzverif/ev"
+	"github.com/istio-ecosystem/authservice/zzverif/hidden"
 	"github.com/istio-ecosystem/authservice/zzverif/seqx"
 	"github.com/istio-ecosystem/authservice/zzverif/vsched"
 	"github.com/istio-ecosystem/authservice/zzverif/vtime"
@@ -281,6 +282,9 @@ func c10Model(run *ev.Run, kind string, abs, idle int, ids []string) seqx.Model 
 					v := snap[id]
 					fmt.Fprintf(&sb, "%s:tok=%v st=%v added=%v acc=%v;", id, v.Tokens != nil, v.State != nil, v.Added.Sub(s.now), v.Accessed.Sub(s.now))
 				}
+			}
+			if hs := hidden.Dump(s.store, "log", "clock", "mu", "sessions", "client", "absoluteSessionTimeout", "idleSessionTimeout"); hs != "{}" {
+				sb.WriteString("|hidden:" + hs)
 			}
 			// the candidate sets are part of the state (they determine future verdicts)
 			if s.tainted {
